@@ -63,6 +63,24 @@ class Inst:
         self.impls = sl['impls']
         self.bodies = sl['bodies']
         self.adt = crate.adts.get(self.enum_path)
+        if self.decl.get('sibling'):
+            # a second derive (enum F) lives in the same module: keep only what belongs to E
+            def mentions_f(tj):
+                t = crate.T(tj)
+                pth = t.get('path', '')
+                if pth.startswith(self.mod + '::F'):
+                    return True
+                return any(mentions_f(a) for a in t.get('args', []) if not (isinstance(a, dict) and a.get('k') == 'const'))
+            keep = []
+            for im in self.impls:
+                if mentions_f(im['self_ty']) or any(mentions_f(a) for a in im.get('trait_args', []) if not (isinstance(a, dict) and a.get('k') == 'const')):
+                    continue
+                keep.append(im)
+            dropped = {im['path'] for im in self.impls} - {im['path'] for im in keep}
+            self.impls = keep
+            self.bodies = {k: b for k, b in self.bodies.items() if not any(k.startswith(d + '::') for d in dropped)}
+            self.items = [it for it in self.items if not any(it['path'].startswith(d + '::') for d in dropped)]
+            self.adts = [a for a in self.adts if not a['path'].startswith(self.mod + '::F')]
         # specification side
         self.S = D.sorted_variants(self.decl)                      # variants by value
         self.values = [v['value'] for v in self.S]
